@@ -219,10 +219,19 @@ func solveOne(rep *FuncReport, o *Obligation, idx int, opt SolveOptions) {
 			name string
 			r    solveResult
 		}
-		ch := make(chan res, len(solvers))
+		ch := make(chan res, len(solvers)+2)
 		n := 0
 		for si, sp := range solvers {
 			if si == 0 && quick == timeout {
+				continue
+			}
+			if si == 0 {
+				// the first stage has used this seed already: run times are heavy-tailed, two fresh seeds help more than
+				// more time for the same one
+				for _, s2 := range []int{seed + 101, seed + 202} {
+					n++
+					go func(sp solverSpec, s2 int) { ch <- res{sp.name, runSolver(sp, file, timeout, s2)} }(sp, s2)
+				}
 				continue
 			}
 			n++
